@@ -605,4 +605,113 @@ theorem members_is_getKey {h : Heap} (hs : Struct h) (n : Nat) (hn : n < h.size)
       subst hg
       exact mem_of_lookup hl
 
+/-! ### DeleteKey / PopKey -/
+
+theorem mapM_filter_members {γ : Type} (g : Bytes × γ → Option JVal) (q : Bytes → Bool) : ∀ (l : List (Bytes × γ)) (ys : List (Bytes × JVal)),
+    l.mapM (fun p => (g p).map (fun v => (p.1, v))) = some ys →
+    (l.filter (fun p => q p.1)).mapM (fun p => (g p).map (fun v => (p.1, v))) = some (ys.filter (fun y => q y.1))
+  | [], ys, h => by simp only [List.mapM_nil] at h; cases h; rfl
+  | p :: ps, ys, h => by
+    simp only [List.mapM_cons] at h
+    cases hp : g p with
+    | none => rw [hp] at h; simp at h
+    | some v =>
+      rw [hp] at h
+      cases hps : ps.mapM (fun p => (g p).map (fun v => (p.1, v))) with
+      | none => rw [hps] at h; simp at h
+      | some zs =>
+        rw [hps] at h
+        simp at h
+        subst h
+        have ih := mapM_filter_members g q ps zs hps
+        by_cases hq : q p.1 = true
+        · simp only [List.filter_cons, hq, if_true, List.mapM_cons, hp, ih]; rfl
+        · have hq' : q p.1 = false := by cases hx : q p.1 <;> simp_all
+          simp only [List.filter_cons, hq', Bool.false_eq_true, if_false, ih]
+
+/-- **DeleteKey / PopKey is "remove the member" on plain data**: after an accepted deletion of the member under `k` the receiver
+denotes its old members without that one, and every node that is neither the receiver nor one of its ancestors — the deleted member,
+now detached, and everything below it included — denotes what it denoted before -/
+theorem deleteKey_refines {h : Heap} (hs : Struct h) (ha : Acyc h) (n : Nat) (hn : n < h.size) (hobj : (h.get n).type = .object)
+    (k : Bytes) (c : Id) (hl : (h.childMap n).lookup k = some c) (fuel : Nat) :
+    (h.popKey (some n) k).2 = .ok c ∧
+    (∀ m : Id, ¬ Anc h m n → absVal fuel (h.popKey (some n) k).1 m = absVal fuel h m) ∧
+    (∀ kvs, absVal (fuel + 1) h n = some (.obj kvs) →
+      absVal (fuel + 1) (h.popKey (some n) k).1 n = some (.obj (kvs.filter (fun y => !(y.1 == k))))) := by
+  have okn := hs n hn
+  obtain ⟨hc, hcn, hpc, hpos⟩ := okn.kids (k, c) (mem_of_lookup hl)
+  have hkc : (h.get c).key = some k := by
+    unfold PosOK at hpos
+    rw [hobj] at hpos
+    simpa using hpos
+  have hg : h.getKey (some n) k = .ok c := by
+    unfold Heap.getKey
+    have ht : h.typeOf n = .object := hobj
+    simp only [ht, bne_self_eq_false, Bool.false_eq_true, if_false, hl]
+  have hrm := remove_object_eq h n c k hobj hpc hkc
+  have hpop : h.popKey (some n) k = (detachObj ((h.mark n).modify n (fun r => { r with cache := none })) n c k, .ok c) := by
+    unfold Heap.popKey
+    simp only [hg, hrm]
+  rw [hpop]
+  simp only []
+  refine ⟨trivial, ?_⟩
+  have hrec : ∀ m : Id, ¬ Anc h m n →
+      EqModLinks ((detachObj ((h.mark n).modify n (fun r => { r with cache := none })) n c k).get m) (h.get m) := by
+    intro m hm
+    have hmn : m ≠ n := by intro e; exact hm (e ▸ Anc.refl' h _)
+    unfold detachObj
+    rw [get_modify]
+    split
+    · rename_i hcc
+      rw [get_modify_other _ _ _ _ (hcc.1 ▸ hmn), get_modify_other _ _ _ _ (hcc.1 ▸ hmn), ← hcc.1, mark_frame h n m hm]
+      exact ⟨rfl, rfl, rfl, rfl, rfl, rfl, rfl⟩
+    · rw [get_modify_other _ _ _ _ hmn, get_modify_other _ _ _ _ hmn, mark_frame h n m hm]
+      exact ⟨rfl, rfl, rfl, rfl, rfl, rfl, rfl⟩
+  have hdat : (detachObj ((h.mark n).modify n (fun r => { r with cache := none })) n c k).datas = h.datas := by simp [detachObj]
+  have frame : ∀ m : Id, ¬ Anc h m n →
+      absVal fuel (detachObj ((h.mark n).modify n (fun r => { r with cache := none })) n c k) m = absVal fuel h m := by
+    intro m hm
+    apply absVal_congr h _ (fun m => ¬ Anc h m n) _ fuel m hm
+    intro x hx
+    have r := hrec x hx
+    refine ⟨by unfold Heap.typeOf; rw [r.1], fun hsc => scalarVal_congr h _ x hdat r (by unfold Heap.typeOf at hsc; exact hsc), ?_, offChain_kids hs n x hx⟩
+    unfold childMap; rw [r.2.2.2.2.2.1]
+  refine ⟨frame, ?_⟩
+  intro kvs hkvs
+  have hcmn : (detachObj ((h.mark n).modify n (fun r => { r with cache := none })) n c k).childMap n = (h.childMap n).erase k := by
+    have := childMap_remove_object h n c k hn hobj hpc hkc hcn
+    rw [hrm] at this
+    exact this
+  have htyn : (detachObj ((h.mark n).modify n (fun r => { r with cache := none })) n c k).typeOf n = .object := by
+    have := (remove_proj stable_type h n c n).1
+    rw [hrm] at this
+    unfold Heap.typeOf
+    simp only [] at this
+    rw [this]; exact hobj
+  have hold : (h.childMap n).mapM (fun p => (absVal fuel h p.2).map (fun v => (p.1, v))) = some kvs := by
+    unfold absVal at hkvs
+    have : h.typeOf n = .object := hobj
+    rw [this] at hkvs
+    simp only [] at hkvs
+    cases hm : (h.childMap n).mapM (fun p => (absVal fuel h p.2).map (fun v => (p.1, v))) with
+    | none => rw [hm] at hkvs; simp at hkvs
+    | some ys => rw [hm] at hkvs; simp at hkvs; rw [hkvs]
+  unfold absVal
+  rw [htyn]
+  simp only []
+  rw [hcmn]
+  unfold ChildMap.erase
+  have hkids : ((h.childMap n).filter (fun p => !(p.1 == k))).mapM
+      (fun p => (absVal fuel (detachObj ((h.mark n).modify n (fun r => { r with cache := none })) n c k) p.2).map (fun w => (p.1, w))) =
+      ((h.childMap n).filter (fun p => !(p.1 == k))).mapM (fun p => (absVal fuel h p.2).map (fun w => (p.1, w))) := by
+    apply mapM_congr
+    intro p hp
+    have hp' := (List.mem_filter.mp hp).1
+    rw [frame]
+    obtain ⟨_, _, hpar, _⟩ := okn.kids p hp'
+    rintro ⟨j, hj⟩
+    exact ha p.2 j (by rw [up_succ_of_parent hpar]; exact hj)
+  rw [hkids, mapM_filter_members (fun p => absVal fuel h p.2) (fun key => !(key == k)) _ kvs hold]
+  rfl
+
 end Ajson.Proofs
